@@ -1,10 +1,14 @@
 package harness
 
 import (
+	"context"
+	"encoding/json"
 	"fmt"
 	"strings"
+	"time"
 
 	"verif/ref"
+	"verif/vclock"
 	"verif/vsched"
 )
 
@@ -32,7 +36,238 @@ func c03Cells(tier string) []Cell {
 		}
 	}
 
+	// Sequences: the table cells entered from non-initial states (every sequence of <=4 / <=5 operations).
+	for front := 0; front < 3; front++ {
+		for bits := 0; bits < 32; bits++ {
+			for _, init := range []string{"A", "S", "T", "F"} {
+				c := FCfg{
+					Front: front, SU: boolBits(bits, 0), SR: boolBits(bits, 1), FH: boolBits(bits, 2),
+					MS: boolBits(bits, 3), FTNeg: boolBits(bits, 4), Init: init, FailC: "0", Tags: []string{"sequences"},
+				}
+
+				for first := range c03SeqOps {
+					if init != "A" && tier == "quick" && first > 1 && first != 7 {
+						continue // quick: preloaded states start with a Get or ExpireAll
+					}
+
+					c.Tags = []string{"sequences", fmt.Sprint(first)}
+					cells = append(cells, Cell{ID: c.ID()})
+				}
+			}
+		}
+	}
+
 	return cells
+}
+
+var c03SeqOps = []string{"Get(ok)", "Get(fail)", "Advance(1s)", "Advance(21s>FailedUpdateTTL)", "Advance(61s>UpdateTTL)", "Advance(2m>MaxStaleness)", "Advance(5m1s>TTL)", "ExpireAll"}
+
+// c03Sequences enumerates every operation sequence that starts with ops[first].
+func c03Sequences(cfg FCfg, env *Env) CellResult {
+	res := CellResult{Exhaustive: true, Outcomes: map[string]int{}}
+
+	var first int
+	fmt.Sscan(cfg.Tags[1], &first)
+
+	maxLen := 4
+	if env.Thorough() {
+		maxLen = 5
+	}
+
+	front := frontNames[cfg.Front]
+	seen := map[string]bool{}
+
+	runSeq := func(seq []int) {
+		var (
+			h    *fh
+			viol []Violation
+		)
+
+		m := &ref.FModel{SU: cfg.SU, FH: cfg.FH, MS: cfg.MS, FTNeg: cfg.FTNeg, TTL: backendTTL, UpdateTTL: updateTTL, MaxStale: maxStale, FailTTL: failedTTL}
+
+		bad := func(kind, detail string, st ref.FStep) {
+			viol = append(viol, Violation{
+				Signature: fmt.Sprintf("C03 %s seq %s state=%c failcached=%v fh=%v build=%v", front, kind, effState(st.In), st.In.FailCached, st.In.FH, st.In.BuildOK),
+				Detail:    detail,
+			})
+		}
+
+		body := func() {
+			h = newFH(cfg)
+
+			// the preloaded entry (token "pre", modelled as build index -1), relative to the 10 minutes newFH advanced
+			now0 := vclock.NowQuiet()
+
+			switch cfg.Init[0] {
+			case 'F':
+				m.Has, m.Val, m.Exp = true, -1, now0.Add(50*time.Minute)
+			case 'S':
+				m.Has, m.Val, m.Exp = true, -1, now0.Add(-10*time.Second)
+			case 'T':
+				m.Has, m.Val, m.Exp = true, -1, now0.Add(-5*time.Minute)
+			}
+
+			tokN := func(t Tok) int {
+				if t.O == "pre" {
+					return -1
+				}
+
+				return t.N
+			}
+
+			for _, o := range seq {
+				switch o {
+				case 0, 1:
+					h.cfg.Script = "o"
+					if o == 1 {
+						h.cfg.Script = "f"
+					}
+
+					now := vclock.NowQuiet()
+					st := m.Get(now, o == 0)
+					nb := h.nbuild[0]
+					// the harness builder numbers invocations itself; make them line up with the model
+					key := append([]byte(nil), h.keys[0]...)
+					t, isNil, _, err := h.front.Get(context.Background(), key, h.builder(0))
+					vsched.Join()
+
+					got := "?"
+
+					switch {
+					case err != nil:
+						if te := unwrapTok(err); te != nil && te.N == st.NewIdx && h.nbuild[0] > nb {
+							got = ref.RBuildErr
+						} else if te != nil {
+							got = ref.RCachedErr
+						} else {
+							got = "other-error(" + err.Error() + ")"
+						}
+					case isNil:
+						got = "zero-value-nil-error"
+					case t.O == "b" && t.N == st.NewIdx && h.nbuild[0] > nb:
+						got = ref.RNew
+					case st.In.State == 'F' && tokN(t) == st.OldVal:
+						got = ref.RFresh
+					case tokN(t) == st.OldVal:
+						got = ref.RStale
+					default:
+						got = "unexpected-value(" + t.String() + ")"
+					}
+
+					ok := false
+					for _, w := range st.Out.Results {
+						if w == got {
+							ok = true
+						}
+					}
+
+					if !ok {
+						bad("result", fmt.Sprintf("Get returned %s, documented: %s", got, strings.Join(st.Out.Results, " or ")), st)
+					}
+
+					if h.nbuild[0]-nb != st.Out.Builds {
+						bad("builds", fmt.Sprintf("builder invoked %d times, documented: %d", h.nbuild[0]-nb, st.Out.Builds), st)
+					}
+
+					// state at quiescence
+					pt, pnil, at, found := h.front.Peek(h.keys[0])
+					_, fcached := h.front.FailurePeek(h.keys[0])
+
+					if st.Ambiguous {
+						// adopt what the implementation did (both readings are documented)
+						if found && !pnil {
+							m.Has, m.Val, m.Exp = true, tokN(pt), at
+						}
+					} else {
+						if found != m.Has || (found && (pnil || tokN(pt) != m.Val || !at.Equal(m.Exp))) {
+							bad("backend", fmt.Sprintf("backend holds (%v nil=%v expiry now%+v found=%v), model: (build #%d expiry now%+v has=%v)",
+								pt, pnil, at.Sub(now), found, m.Val, m.Exp.Sub(now), m.Has), st)
+						}
+
+						if fcached != m.FailureCached(now) {
+							bad("failure-cache", fmt.Sprintf("failure cached=%v, model says %v", fcached, m.FailureCached(now)), st)
+						}
+					}
+
+					if h.front.KeyLocks() != 0 {
+						bad("lock-leak", "key lock held at quiescence", st)
+					}
+				case 2:
+					vclock.Advance(time.Second)
+				case 3:
+					vclock.Advance(21 * time.Second)
+				case 4:
+					vclock.Advance(61 * time.Second)
+				case 5:
+					vclock.Advance(2 * time.Minute)
+				case 6:
+					vclock.Advance(5*time.Minute + time.Second)
+				case 7:
+					h.front.ExpireAll()
+					m.ExpireAll(vclock.NowQuiet())
+				}
+
+				vclock.Advance(time.Millisecond)
+			}
+		}
+
+		r := vsched.Replay(nil, body)
+		res.Execs++
+		res.States += len(seq)
+		res.Transitions += len(r.Steps)
+
+		var names []string
+		for _, o := range seq {
+			names = append(names, c03SeqOps[o])
+		}
+
+		if r.Deadlock || r.Panic != nil {
+			viol = append(viol, Violation{Signature: fmt.Sprintf("C03 %s seq fatal", front), Detail: fmt.Sprintf("deadlock=%v panic=%v %s", r.Deadlock, r.Panic, r.PanicStack)})
+		}
+
+		for _, v := range viol {
+			if !seen[v.Signature] {
+				seen[v.Signature] = true
+				v.Detail += "\n  sequence: " + strings.Join(names, "; ") + "\n" + h.formatLog()
+				v.Extra, _ = json.Marshal(seq)
+				res.Violations = append(res.Violations, v)
+			}
+		}
+
+		if len(viol) == 0 {
+			res.Outcomes[fmt.Sprintf("len%d builds=%d", len(seq), h.nbuild[0])]++
+
+			if res.Sample == nil && len(seq) == maxLen && h.nbuild[0] >= 2 {
+				res.Sample = map[string]interface{}{"sequence": names, "builds": h.nbuild[0]}
+			}
+		}
+	}
+
+	if env.Replay != nil {
+		var seq []int
+		_ = json.Unmarshal(env.Replay.Extra, &seq)
+		runSeq(seq)
+
+		return res
+	}
+
+	var rec func(seq []int)
+	rec = func(seq []int) {
+		runSeq(seq)
+
+		if len(seq) == maxLen {
+			return
+		}
+
+		for o := range c03SeqOps {
+			rec(append(append([]int{}, seq...), o))
+		}
+	}
+
+	rec([]int{first})
+	res.MaxDepth = maxLen
+
+	return res
 }
 
 // classifyResult maps a Get result to the table's vocabulary.
@@ -184,6 +419,10 @@ func effState(in ref.FIn) byte {
 func c03Run(c Cell, env *Env) CellResult {
 	cfg := parseFCfg(c.ID)
 
+	if len(cfg.Tags) > 0 && cfg.Tags[0] == "sequences" {
+		return c03Sequences(cfg, env)
+	}
+
 	in := ref.FIn{State: cfg.Init[0], FailCached: cfg.FailC[0] == '1', FTNeg: cfg.FTNeg, MS: cfg.MS}
 	if ref.FailoverTable(in).Unreachable {
 		return CellResult{Exhaustive: true, States: 1, Transitions: 1, Outcomes: map[string]int{"unreachable cell (counted, not explored)": 1}}
@@ -202,7 +441,8 @@ func init() {
 		Cells: c03Cells, Run: c03Run,
 		Rule: "the complete finite table: entry state {absent,fresh,stale,too stale} x failure cache {empty,hit} x SyncUpdate x SyncRead x FailHard x MaxStaleness {0,1m} x FailedUpdateTTL {default,-1} " +
 			"x builder {ok,error} x front-end {Failover+ShardedMap, Failover+SyncMap, FailoverOf+ShardedMapOf}; per cell one Get under the scheduler with ALL schedules of caller and background build; " +
-			"oracle ref.FailoverTable written from README bullets 2-7: result, builder invocations, sync/background, backend and failure cache at quiescence",
+			"oracle ref.FailoverTable written from README bullets 2-7: result, builder invocations, sync/background, backend and failure cache at quiescence; " +
+			"plus every sequence of <=4 (quick) / <=5 (thorough) operations over {Get(ok), Get(fail), Advance 1s / 21s / 61s / 2m / 5m1s, ExpireAll} x 32 configurations x 3 front-ends against the sequential model ref.FModel (table + entry/failure state), so that cells are entered from non-initial states",
 		Assumptions: []string{
 			"two cells are documented ambiguously (stale value present and failure cached): either documented outcome is accepted",
 			"MaxStaleness=0 makes 'too stale' coincide with 'stale'",
